@@ -184,6 +184,7 @@ def _use_lemma(ctx, args, kwargs):
 
 ModelsMixin.FUNCTION_MODELS.update({
     "pyvc.spec.use_lemma": _use_lemma,
+    "pyvc.spec.yaml_file": (lambda ctx, args, kwargs: "config.yaml"),
     "pyvc.spec.ghost_get": _ghost_get,
     "pyvc.spec.ghost_set": _ghost_set,
     "pyvc.spec.seq_uncons": _seq_uncons,
